@@ -26,13 +26,14 @@ type c07Scenario struct {
 	FlushMs   int    `json:"flush_ms"`
 	NodeFail  int    `json:"node_fail_at"` // 0 none, else n-th message consumed by the failing node
 	Immediate bool   `json:"immediate"`    // true: stop at once; false: first let the ingest queue in front of the task drain
+	AnonTopic bool   `json:"alert_also_on_its_anonymous_topic,omitempty"` // the alert node has a handler of its own: its anonymous topic is closed when the node ends
 	Config    string `json:"config"`
 }
 
 func c07Gen(c *Ctx) *c07Scenario {
 	g := c.G
 	sc := &c07Scenario{}
-	sc.Shape = []string{"influx", "log", "alert", "loopback", "fork", "join"}[g.Intn(6)]
+	sc.Shape = []string{"influx", "log", "alert", "loopback", "fork", "join", "failnode"}[g.Intn(7)]
 	sc.InfluxBuf = []int{1000, 1, 2, 5}[g.Intn(4)]
 	sc.FlushMs = []int{10000, 1, 50}[g.Intn(3)]
 	nw := g.Range(1, 3)
@@ -48,7 +49,7 @@ func c07Gen(c *Ctx) *c07Scenario {
 	}
 	sc.StopAfter = g.Intn(total + 1)
 	sc.Stop = []string{"stop", "delete", "close"}[g.Intn(3)]
-	sc.Immediate = g.Chance(1, 8)
+	sc.Immediate = g.Chance(1, 8) || sc.Shape == "failnode"
 	if sc.Shape == "loopback" && sc.Stop == "close" {
 		sc.Stop = "stop"
 	}
@@ -59,12 +60,20 @@ func c07Gen(c *Ctx) *c07Scenario {
 		return fmt.Sprintf("|influxDBOut().database('out').retentionPolicy('orp').measurement('o%d').buffer(%d).flushInterval(%dms)", i, sc.InfluxBuf, sc.FlushMs)
 	}
 	alert := "|alert().id('a{{ index .Tags \"host\" }}').message('{{ index .Fields \"w\" }}/{{ index .Fields \"s\" }}').crit(lambda: \"v\" >= 0).topic('t7')"
+	if (sc.Shape == "alert" || sc.Shape == "fork") && g.Bool() {
+		sc.AnonTopic = true
+		alert += ".log('/dev/null')"
+	}
 	in := "|log().prefix('A/in')\n    "
 	switch sc.Shape {
 	case "influx":
 		sc.Script = "stream\n    |from().measurement('m')\n    " + in + out(0) + "\n"
 	case "log":
 		sc.Script = "stream\n    |from().measurement('m')\n    " + in + "|eval(lambda: \"v\" + 1).as('v1').keep()\n    |log().prefix('A/0')\n"
+	case "failnode":
+		// the first branch fails on the first point it sees (the id template cannot be rendered); the other
+		// branches, among them one that is driven by a timer and not by data, must still terminate on stop
+		sc.Script = "var s = stream\n    |from().measurement('m')\n    |log().prefix('A/in')\ns\n    |alert().id('{{ .NoSuchField }}').crit(lambda: \"v\" >= 0).topic('t7')\ns\n    |stats(10ms)\n    |log().prefix('A/stats')\ns\n    |where(lambda: \"v\" >= 0)\n    " + out(0) + "\n"
 	case "alert":
 		sc.Script = "stream\n    |from().measurement('m')\n    " + in + alert + "\n"
 	case "loopback":
@@ -101,6 +110,7 @@ func runC07(c *Ctx) Verdict {
 	var stopStamp int64
 	var d *harness.Daemon
 	rec := &harness.RecHandler{Name: "h7"}
+	recAnon := &harness.RecHandler{Name: "h7anon"}
 	fi := &harness.FakeInflux{}
 	var leaked []simrt.ParkedInfo
 	slow := func() {
@@ -124,6 +134,13 @@ func runC07(c *Ctx) Verdict {
 			}
 		}
 		d.Alert.RegisterAnonHandler("t7", rec)
+		if sc.AnonTopic {
+			// the node's anonymous topic is main:A:alert<N>; N depends on the shape
+			recAnon.Delay = slow
+			for n := 2; n <= 9; n++ {
+				d.Alert.RegisterAnonHandler(fmt.Sprintf("main:A:alert%d", n), recAnon)
+			}
+		}
 		if sc.ScriptB != "" {
 			tb, err := d.Define("B", sc.ScriptB, kapacitor.StreamTask, []kapacitor.DBRP{{Database: "db2", RetentionPolicy: "rp2"}})
 			if err != nil {
@@ -229,6 +246,10 @@ func runC07(c *Ctx) Verdict {
 		v.Shape = shape
 		return v
 	}
+	if sc.Shape == "failnode" {
+		// a failed task owes its outputs nothing; it must have terminated (checked above)
+		return Pass()
+	}
 	// ---- conservation ----
 	owed := map[[2]int]bool{}
 	for _, a := range acks {
@@ -297,6 +318,17 @@ func runC07(c *Ctx) Verdict {
 			o.seen = append(o.seen, [2]int{w, s})
 		}
 		outs = append(outs, o)
+		if sc.AnonTopic {
+			o := output{name: "handler on the alert node's anonymous topic"}
+			for _, e := range recAnon.Events {
+				var w, s int
+				if _, err := fmt.Sscanf(e.Message, "%d/%d", &w, &s); err != nil {
+					return Fail("corrupt", "alert event with unexpected message %q", e.Message)
+				}
+				o.seen = append(o.seen, [2]int{w, s})
+			}
+			outs = append(outs, o)
+		}
 	}
 	if len(owed) == 0 {
 		c.Trivial = true
@@ -371,7 +403,7 @@ func init() {
 	Register(&Prop{
 		ID:  "C07",
 		Run: runC07,
-		Rule: "case = one of 6 pipeline shapes ending in real output nodes (influxDBOut with seeded buffer/flushInterval, alert->topic->bufHandler->recording handler, kapacitorLoopback into a second task, log sink, 3-way fork, self-join) " +
+		Rule: "case = one of 7 pipeline shapes: a task one of whose branches fails on the first point while a timer-driven stats branch and an influxDBOut branch go on (termination only), or 6 shapes ending in real output nodes (influxDBOut with seeded buffer/flushInterval, alert->topic->bufHandler->recording handler on a named topic and, in half of the cases, also on the node's anonymous topic (closed when the node ends), kapacitorLoopback into a second task, log sink, 3-way fork, self-join) " +
 			"x 1-3 concurrent HTTP writers (1-30/120 points each) x stop action (StopTask/DeleteTask/TaskMaster.Close) issued after a seeded number of acknowledged writes x slow outputs x one seeded schedule/knob set; " +
 			"non-trivial = at least one point was acknowledged before the stop request; distinct = distinct (scenario, interleaving signature) pairs",
 		Real:        []string{"services/httpd Handler", "TaskMaster (WritePoints, forkPoint, StopTask/DeleteTask/Close/Drain)", "ExecutingTask.stop, node.start/stop/Wait", "StreamNode, FromNode, EvalNode, WhereNode, JoinNode, LogNode, InfluxDBOutNode + writeBuffer, AlertNode, KapacitorLoopbackNode", "edge package", "services/alert + alert.Topics + bufHandler"},
